@@ -526,7 +526,7 @@ def router_check(chk, prop, stops, rule):
     chunks = [cases[i::8] for i in range(8)]
 
     def run(chunk, flavour="default"):
-        recs, _, rc, err = C.run_harness(bins[flavour], "router", [router_line(c) for c in chunk], shim=False, timeout=900)
+        recs, _, rc, err = C.run_harness(bins[flavour], "router", [router_line(c) for c in chunk], shim=False, timeout=300)
         by = {r["id"]: r for r in recs if r.get("kind") == "router"}
         return [(c, by.get(c["id"]), flavour) for c in chunk]
     with concurrent.futures.ThreadPoolExecutor(max_workers=8) as ex:
@@ -996,6 +996,18 @@ def check_C10(chk):
         if not model:
             continue
         cases.append({"id": k + 1, "ops": ops, "model": model, "expect": expect, "meta": meta})
+    # fixed: a drained channel without senders answers 'disconnected' to every variant and every duration - zero and sub-millisecond
+    # ones included; a connected idle one 'empty'
+    fixed = [(["s10", "t", "d", "T0", "T300", "T900", "T1500", "t"],
+              [("t", "MNonblocking", "QMsg", None), ("T0", "MTimeout 0", "QDead", 0), ("T300", "MTimeout 300", "QDead", 300), ("T900", "MTimeout 900", "QDead", 900),
+               ("T1500", "MTimeout 1500", "QDead", 1500), ("t", "MNonblocking", "QDead", None)]),
+             (["T0", "T300", "t", "s10", "T0", "d", "T300"],
+              [("T0", "MTimeout 0", "QIdle", 0), ("T300", "MTimeout 300", "QIdle", 300), ("t", "MNonblocking", "QIdle", None), ("T0", "MTimeout 0", "QMsg", 0),
+               ("T300", "MTimeout 300", "QDead", 300)])]
+    exp_of = {"QMsg": "OMsg", "QDead": "ODisconnected", "QIdle": "OEmpty"}
+    for j, (ops, rs) in enumerate(fixed):
+        cases.insert(j, {"id": 900 + j, "ops": ops, "model": ["(%s, %s, None)" % (m, q) for _, m, q, _ in rs], "expect": [exp_of[q] for _, _, q, _ in rs],
+                         "meta": [{"op": o, "timeout_us": d, "state": q} for o, _, q, d in rs]})
     chunks = [cases[i::12] for i in range(12)]
 
     def run(chunk, fl="default"):
@@ -1012,6 +1024,11 @@ def check_C10(chk):
         if why:
             fails.append((c, rec, fl, why))
             continue
+        if fl == "inprocess" and c.get("model"):
+            # no system calls to compare on this build: outcomes against Timed.inproc_run (an undecodable message is a message taken)
+            mops = [(t if t.count(",") == 2 else t[:t.rindex(",")] + ")") for t in c["model"]]
+            outs = ["OMsg" if (x["out"] == "OError" and e == "OError") else x["out"] for x, e in zip(rec["results"], c["expect"])]
+            todo.append((k, "check_inproc_timed [%s] [%s]" % ("; ".join(mops), "; ".join(outs))))
         if fl == "default" and trace:
             seg = C.ops_between(trace, "timed %d" % c["id"], "endtimed %d" % c["id"]) or []
             # the receiver's own socket: the descriptor of the first flag/poll call, or of the first recvmsg
@@ -1287,6 +1304,19 @@ def check_C05(chk):
     # by coqc: per step the library's calls (ftruncate, mmap, dup, close - from the trace), the live mappings and descriptors of the
     # process, and what every read returns
     sbad_n = shm_script_stage(chk, bins, rng, 60 if thorough else 16, fails)
+    # regions embedded by values whose Serialize implementation itself sends values (with regions of their own) before and after: every
+    # message carries exactly its own regions, in order (script driver shared with C14, model Tls)
+    from . import props_codec as PC5
+    scases, sgot, sfails, stodo, sbad, serrors = PC5.script_stage(chk, random.Random(chk.seed + 31), bins["default"], 800 if thorough else 80, 3, tag="c05script")
+    chk.coverage["nested_send_values"] = len(scases)
+    if serrors:
+        chk.unproved("model evaluation (coqc on generated nested-send cases) failed", serrors[0][-1500:])
+    if sbad and not sfails and not fails:
+        c5, r5 = sbad[0]
+        chk.unproved("correspondence TlsCheck.check_script: regions of nested / enclosing messages differ from Tls.ipc_send on %d of %d values" % (len(sbad), len(stodo)),
+                     {"serializer_program": c5["body"], "kinds": c5["kinds"], "pre": c5["pre"], "observed": r5 and r5["result"]})
+    fails = fails + list(sfails)
+    sbad_n += len(sbad)
     # regions as first-class values inside whole-API programs (cloned, embedded next to endpoints, travelling through sets and servers,
     # carried by messages that die or cannot be decoded, read at every stage), against the Api model on the three builds
     from . import props_prog as PP
@@ -1405,6 +1435,10 @@ def check_C08(chk):
         elif not r["gone"] or not r["dir_gone"] or r["tmp_after"] != r["tmp_before"]:
             fails.append(({"op": "forkaccept", "unused": r["unused"]}, r, "a server created in one process and %s in a forked child leaves its socket file / temp dir behind"
                           % ("dropped unused" if r["unused"] else "accepted")))
+    # one-shot servers inside whole-API programs (first messages carrying endpoints and regions, accept of a departed client, servers
+    # dropped unused) against the model Api.v - the tie of the C08_api theorems - on both builds
+    from . import props_prog as PP8
+    af8, ab8 = PP8.api_stage(chk, "C08", bins, ["default", "inprocess"], 300 if thorough else 30, 60, seed_off=83)
     fr = next((r for r in recs if r.get("kind") == "fullfd"), None)
     if fr is None:
         fails.append(({"op": "fullfd"}, None, "the scenario 'server dropped while the descriptor table is full' did not complete: %s" % err[-200:]))
@@ -1507,4 +1541,4 @@ def check_C08(chk):
     if bad and not fails:
         chk.unproved("correspondence ServerCheck.check_server differs on %d of %d scenarios" % (len(bad), len(todo)), {"scenario": bad[0]})
     chk.assumptions += ["tempfile's names are unique (assumed); bind/listen/connect/accept semantics and SO_LINGER are kernel behaviour; socket paths of 108 bytes or more are outside the precondition"]
-    finish_proof(chk, proof_ok, fails, bad)
+    finish_proof(chk, proof_ok, fails + [None] * af8, bad + [None] * ab8)
